@@ -1248,6 +1248,8 @@ struct StormFetcher {
     completed: Arc<Mutex<Option<(Instant, u64)>>>,
     heart: Arc<AtomicU64>,
     traced: bool,
+    /// lookups started for this (fresh, never stopped, never idle) pair: must stay 1
+    lookups: Arc<AtomicU64>,
 }
 
 impl PathFetcher for StormFetcher {
@@ -1258,6 +1260,7 @@ impl PathFetcher for StormFetcher {
     ) -> impl Future<Output = Result<Vec<ScionPath>, PathFetchError>> + Send + '_ {
         async move {
             let w = if self.traced { worker_of_current_task() } else { 0 };
+            self.lookups.fetch_add(1, Ordering::SeqCst);
             if self.traced {
                 hev("fetch_call", "", w, key_of(dst), "");
             }
@@ -1338,7 +1341,9 @@ fn cmd_storm(evp: &str, resp: &str) {
                 _ => Outcome::Ok,
             };
             let max_callers: u64 = if traced { rng.range(2, 8) } else { 4000 };
+            let lookups = Arc::new(AtomicU64::new(0));
             let fetcher = StormFetcher {
+                lookups: lookups.clone(),
                 issued: issued.clone(),
                 target: if traced { rng.range(1, max_callers) } else { rng.range(1, 48) },
                 extra_yields: rng.below(4),
@@ -1446,6 +1451,13 @@ fn cmd_storm(evp: &str, resp: &str) {
                 parked_total += pending;
                 pv.push(json!({"key": "NoLostWakeup:caller-never-released", "pair": pair, "seed": seed0,
                     "what": format!("storm pair {pair}: {pending} caller(s) of path() still pending 10 s (of process progress) after the lookup of their pair completed ({})", outcome.name())}));
+            }
+            // concurrent first requests for one pair start exactly one worker (nothing removes the
+            // entry in a storm pair: no stop, idle and refetch periods of one hour)
+            let nl = lookups.load(Ordering::SeqCst);
+            if nl > 1 {
+                pv.push(json!({"key": "SingleWorker:second-worker-without-removal", "pair": pair, "seed": seed0,
+                    "what": format!("storm pair {pair}: {nl} lookups were started for one fresh pair (concurrent first requests must start exactly one worker)")}));
             }
             if traced {
                 hev("drop_begin", "", 0, 0, "");
